@@ -100,14 +100,17 @@ def run(ctx):
     if ctx.quick:
         waves = [dict(mounts="rotate", variants="rotate", concs="rotate", reload="rotate", admin=2, shards=16)]
     else:
-        waves = [dict(mounts=m, variants="all", concs="all", reload="none", admin=0, shards=64) for m in ("bare", "prefix", "shared")]
-        # every configuration once more, reached by a hot reload from a different configuration
-        waves.append(dict(mounts="rotate", variants="rotate", concs="all", reload="all", admin=0, shards=32))
+        # every row in every wave; the full products are split over the waves (and rotate with the seed)
+        waves = [dict(mounts="bare", variants="rotate", concs="all", reload="none", admin=4, shards=48),
+                 dict(mounts="prefix", variants="all", concs="rotate", reload="none", admin=4, shards=64),
+                 dict(mounts="shared", variants="all", concs="rotate", reload="none", admin=4, shards=64),
+                 # every configuration once more, reached by a hot reload from a different configuration
+                 dict(mounts="bare", variants="all", concs="rotate", reload="all", admin=4, shards=64)]
     counters = {}
     calls = 0
     for wi, w in enumerate(waves):
         out = os.path.join(ctx.shm, "trace-w%d" % wi)
-        info = json.loads(vf.tool(TOOL, ["-rows", rows_file, "-out", out, "-shards", str(w["shards"]), "-seed", str(ctx.seed), "-scratch", ctx.shm,
+        info = json.loads(vf.tool(TOOL, ["-rows", rows_file, "-out", out, "-shards", str(w["shards"]), "-seed", str(ctx.seed), "-scratch", ctx.shm, "-admin-offset", str(wi * 4),
                                          "-mounts", w["mounts"], "-variants", w["variants"], "-concs", w["concs"], "-reload", w["reload"], "-admin-cfgs", str(w["admin"]),
                                          "-workers", str(vf.NCPU)], timeout=2400).strip().splitlines()[-1])
         calls += info["calls"]
@@ -160,7 +163,9 @@ def run(ctx):
             if counters.get("boot.%s.%s" % (b, cls), 0) == 0:
                 missing.append("boot %s class %s" % (b, cls))
     if missing:
-        raise vf.Infra("vacuous run, not exercised: " + "; ".join(missing[:20]))
+        if not ctx.violations:
+            raise vf.Infra("vacuous run, not exercised: " + "; ".join(missing[:20]))
+        ctx.notes.append("not exercised (run has violations): " + "; ".join(missing[:20]))
     ctx.count("variants_served", sum(v for k, v in counters.items() if k.startswith("variant.") and ".plain." not in k and k.endswith(".other")))
     ctx.count("pull_unauth", sum(v for k, v in counters.items() if k.startswith("pullcls.") and k.endswith(".unauth")))
     ctx.count("pull_served_or_other", sum(v for k, v in counters.items() if k.startswith("pullcls.") and k.endswith(".other")))
